@@ -86,6 +86,9 @@ def parseStage (j : Json) : R Spec.Stage := do
   let e ← strF j "errno" >>= parseGone
   if s == "readlink" then pure (.beforeReadlink e)
   else if s == "fdinfo" then pure (.beforeFdinfo e)
+  else if s == "fdinfo_read" then do
+    let second ← boolF j "second"
+    pure (.duringFdinfo second e)
   else .error s!"bad stage {s}"
 
 def parseFd (j : Json) : R Spec.Fd := do
@@ -97,14 +100,35 @@ def parseFd (j : Json) : R Spec.Fd := do
   let closes ← optF parseStage j "closes"
   pure ⟨n, kind, pos, flags, tail, closes⟩
 
+/-- `{"ok": hex}` | `{"err": errno}` | `{"ok": hex, "read_err": {"second": b, "errno": errno}}` -/
+def parseInfo (j : Json) : R InfoRes :=
+  match j.getObjVal? "ok" with
+  | .ok v => do
+    let content ← asBytes v
+    match j.getObjVal? "read_err" with
+    | .ok re => do
+      let second ← boolF re "second"
+      let e ← strF re "errno" >>= parseGone
+      pure (.readErr content second e)
+    | .error _ => pure (.ok content)
+  | .error _ => do
+    let e ← strF j "err" >>= parseGone
+    pure (.openErr e)
+
+def jInfo : InfoRes → Json
+  | .ok b => jObj [("ok", jBytes b)]
+  | .openErr e => jObj [("err", Json.str (goneName e))]
+  | .readErr b second e =>
+    jObj [("ok", jBytes b), ("read_err", jObj [("second", Json.bool second), ("errno", Json.str (goneName e))])]
+
 def parseEntry (j : Json) : R Entry := do
   let name ← bytesF j "name"
   let link ← field j "link" >>= parseRes parseLinkErr
-  let info ← field j "info" >>= parseRes parseGone
+  let info ← field j "info" >>= parseInfo
   pure ⟨name, link, info⟩
 
 def jEntry (e : Entry) : Json :=
-  jObj [("name", jBytes e.name), ("link", jRes linkErrName e.link), ("info", jRes goneName e.info)]
+  jObj [("name", jBytes e.name), ("link", jRes linkErrName e.link), ("info", jInfo e.info)]
 
 def jProc (p : Proc) : Json :=
   jObj [("alive", Json.bool p.alive),
